@@ -466,6 +466,7 @@ type concCase struct {
 	child    bool   // run in a re-exec'd child process (the case may crash the process)
 	ofail    string // "" | "err" | "panic": a lifecycle element placed AFTER the async stage whose Open fails
 	dl       bool   // the caller's context ends by its DEADLINE (ctx.Err() = context.DeadlineExceeded) instead of a cancel call
+	mwf      bool   // the stage is MapWhileFilteringWithErrAndCtx with the concurrent option: the mapper filters elements i with i%3 == 1 out (nil)
 	sofail   bool   // the SOURCE provider's Open fails (the asynchronous stage has nothing to read: no reader may be waited for)
 	osat     bool   // the failing Open waits until the stage has saturated (the source is no longer pulled: workers hold results nobody takes)
 	rep      int    // materialise the SAME stream value this many times (>= 1)
@@ -546,6 +547,8 @@ func parseConcCase(text string) (*concCase, error) {
 			cc.osat = v == "1"
 		case "sofail":
 			cc.sofail = v == "1"
+		case "mwf":
+			cc.mwf = v == "1"
 		case "dl":
 			cc.dl = v == "1"
 		case "slowat":
@@ -837,6 +840,20 @@ func (r *concRun) baseStream() stream.Stream[int] {
 		src = src.WithAdditionalLifecycle(stream.NewLifecycle(func(ctx context.Context) error { return nil }, func() {}))
 	}
 	cmap := func(s stream.Stream[int]) stream.Stream[int] {
+		if cc.mwf {
+			// map-while-filtering under the concurrent option: exactly the results of the kept elements, whatever the
+			// order in which the mapper calls complete
+			return stream.MapWhileFilteringWithErrAndCtx(s, func(ctx context.Context, v int) (*int, error) {
+				res, err := r.mapper(ctx, v)
+				if err != nil {
+					return nil, err
+				}
+				if v%3 == 1 {
+					return nil, nil
+				}
+				return &res, nil
+			}, stream.WithConcurrentMapOption(cc.c))
+		}
 		if cc.ptr {
 			// the mapped type is a pointer and nil is a legitimate result (an optional lookup): every result, nil
 			// included, must be delivered; nil shows as 999 in the observation
